@@ -26,13 +26,6 @@ theorem C11_task_iff_resource_reachable (st : State) (hr : Reachable st) (ρ : E
   C11_task_iff_resource st ρ cal (nodup_of_map_nodup _ _ w) hN (findWorker_of_wnodup st w) hord
 
 
-/-- the smallest duration the declaration of a task allows -/
-def Task.minDur (t : Task) : Int :=
-  match t.kind with
-  | .fixed d => d
-  | .zero => 0
-  | .var mn _ _ => mn
-
 /-- the declared delays of a requirement fit the task: they leave a non-negative busy span whatever the duration, and
     the delay-in stays below the task number (finding F19 otherwise) -/
 def Req.Fits (t : Task) (r : Req) : Prop :=
